@@ -222,8 +222,8 @@ pub fn run(tier: Tier) -> i32 {
         "(ab)+", "^$", "", ".", "..", "^a.*", ".*a", "b.*$", "(a|b)(a|b)", "a\\.b", "^b*$", "A",
         "[ab]", "^[^a]", "a{2}", "\\w", "b$|^a", "\\W", "\\D", "^\\S+$", "a\\B", "(?-i:A)b", "\\pL", ".*a.*", ".*A", "b.*",
     ];
-    let needle_alpha: Vec<&str> = if th { vec!["a", "b", "A", "É"] } else { vec!["a", "b", "A"] };
-    let hay_alpha: Vec<&str> = if th { vec!["a", "b", "A", "é", "É"] } else { vec!["a", "b", "A"] };
+    let needle_alpha: Vec<&str> = vec!["a", "b", "A", "É"];
+    let hay_alpha: Vec<&str> = if th { vec!["a", "b", "A", "é", "É"] } else { vec!["a", "b", "A", "É"] };
     let needles = strings(&needle_alpha, if th { 3 } else { 2 });
     let hays = strings(&hay_alpha, if th { 5 } else { 4 });
     let docs: Vec<MObj> = hays.iter().map(|h| MObj::new().with("f", s(h))).collect();
